@@ -436,7 +436,7 @@ mod verif_bounded {
             expect(label, scen, "snapshot names of g2 after pruning everything", name, st.names_(2), Vec::<String>::new());
         }
     }
-    trait MdkStorageProviderDyn { fn put_group_(&self, g: Group); fn snap_(&self, g: u8, n: &str); fn rollback_(&self, g: u8, n: &str) -> bool; fn release_(&self, g: u8, n: &str) -> bool; fn names_(&self, g: u8) -> Vec<String>; fn group_name_(&self, g: u8) -> Option<String>; fn prune_(&self, t: u64) -> Option<usize>; }
+    trait MdkStorageProviderDyn { fn put_group_(&self, g: Group); fn snap_(&self, g: u8, n: &str); fn rollback_(&self, g: u8, n: &str) -> bool; fn release_(&self, g: u8, n: &str) -> bool; fn names_(&self, g: u8) -> Vec<String>; fn group_name_(&self, g: u8) -> Option<String>; fn prune_(&self, t: u64) -> Option<usize>; fn owner_(&self, n: u8) -> Option<String>; fn group_(&self, g: u8) -> Option<Group>; }
     impl<T: MdkStorageProvider> MdkStorageProviderDyn for T {
         fn put_group_(&self, g: Group) { self.save_group(g).unwrap() }
         fn snap_(&self, g: u8, n: &str) { self.create_group_snapshot(&gid(g), n).unwrap() }
@@ -445,6 +445,8 @@ mod verif_bounded {
         fn names_(&self, g: u8) -> Vec<String> { let mut v: Vec<String> = self.list_group_snapshots(&gid(g)).unwrap().into_iter().map(|x| x.0).collect(); v.sort(); v }
         fn group_name_(&self, g: u8) -> Option<String> { self.find_group_by_mls_group_id(&gid(g)).unwrap().map(|g| g.name) }
         fn prune_(&self, t: u64) -> Option<usize> { self.prune_expired_snapshots(t).ok() }
+        fn owner_(&self, n: u8) -> Option<String> { self.find_group_by_nostr_group_id(&[n; 32]).unwrap().map(|g| g.name) }
+        fn group_(&self, g: u8) -> Option<Group> { self.find_group_by_mls_group_id(&gid(g)).unwrap() }
     }
     // C18 / C10 "exact pagination ... incl. boundary values": an offset beyond every row -- up to usize::MAX -- gives an empty page on both
     // back ends, for the message listing and for the pending welcomes (F20: `offset as i64` wrapped negative = first page on SQLite).
@@ -510,6 +512,51 @@ mod verif_bounded {
                 expect(label, "exporter secrets of epochs 1..=12 saved in order for g1 and g2", &format!("get_group_exporter_secret(g{g}, epoch {e})"), name, st.get_secret(g, e), Some([(e as u8) * 2 + g; 32]));
             }}
         }
+    }
+    // C08 / C16 / C10 "a Nostr group id belongs to one group ... never to a different group": a rollback to a snapshot that carries a Nostr
+    // group id which ANOTHER group has taken since (the group rotated its id, the old id was re-used) is refused on both back ends and
+    // changes nothing; each id keeps resolving to its one owner (F31: the memory back end restored and left both groups under one id).
+    #[test]
+    fn rollback_never_gives_two_groups_one_nostr_group_id() {
+        let label = "sqlite_bounded.rollback_never_gives_two_groups_one_nostr_group_id";
+        let (m, s) = stores();
+        let scen = "g1 (nostr id n1) takes snapshot S ; g1 rotates to n2 ; g2 is saved with the freed id n1 ; rollback of g1 to S";
+        for (name, st) in [("memory", &m as &dyn MdkStorageProviderDyn), ("SQLite", &s as &dyn MdkStorageProviderDyn)] {
+            st.put_group_(group(1, 1)); st.snap_(1, "S"); st.put_group_(group(1, 2)); st.put_group_(group(2, 1));
+            expect(label, scen, "rollback accepted?", name, st.rollback_(1, "S"), false);
+            expect(label, scen, "owner of n1 afterwards", name, st.owner_(1), Some("g2".to_string()));
+            expect(label, scen, "owner of n2 afterwards", name, st.owner_(2), Some("g1".to_string()));
+            expect(label, scen, "g1 afterwards", name, st.group_(1), Some(group(1, 2)));
+            expect(label, scen, "g2 afterwards", name, st.group_(2), Some(group(2, 1)));
+        }
+    }
+    // C11 / C09 / C06 "rollback is all-or-nothing": a rollback whose restore FAILS inside its transaction (the snapshot carries a Nostr group
+    // id that another group has taken since) is refused, changes nothing, and leaves the connection usable: the next snapshot succeeds and
+    // everything written afterwards is seen by a later session too. Scope: SQLite, 2 groups, one id rotated and re-used.
+    #[test]
+    fn failed_restore_leaves_no_open_transaction() {
+        let label = "sqlite_bounded.failed_restore_leaves_no_open_transaction";
+        let dir = std::env::temp_dir().join(format!("verif-bounded-{}-{}", std::process::id(), "failed-restore"));
+        let _ = std::fs::remove_dir_all(&dir); std::fs::create_dir_all(&dir).unwrap();
+        let db = dir.join("db.sqlite");
+        let scen = "g1 (nostr id n1) takes snapshot S ; g1 rotates to n2 ; g2 is saved with the freed id n1 ; rollback of g1 to S (its row would need n1 again)";
+        {
+            let s = MdkSqliteStorage::new_unencrypted(&db).expect("sqlite file");
+            s.save_group(group(1, 1)).unwrap();
+            s.create_group_snapshot(&gid(1), "S").unwrap();
+            s.save_group(group(1, 2)).unwrap();
+            s.save_group(group(2, 1)).unwrap();
+            let r = s.rollback_group_to_snapshot(&gid(1), "S");
+            expect(label, scen, "the rollback is refused", "SQLite", r.is_err(), true);
+            expect(label, scen, "g1 after the refused rollback", "SQLite", s.find_group_by_mls_group_id(&gid(1)).unwrap(), Some(group(1, 2)));
+            expect(label, scen, "g2 after the refused rollback", "SQLite", s.find_group_by_mls_group_id(&gid(2)).unwrap(), Some(group(2, 1)));
+            expect(label, scen, "the next create_group_snapshot succeeds (no transaction left open)", "SQLite", s.create_group_snapshot(&gid(2), "T").is_ok(), true);
+            let mut g = group(2, 1); g.name = "written after the refused rollback".into(); s.save_group(g).unwrap();
+        }
+        let s = MdkSqliteStorage::new_unencrypted(&db).expect("sqlite file, second session");
+        expect(label, scen, "a later session sees what was written after the refused rollback", "SQLite", s.find_group_by_mls_group_id(&gid(2)).unwrap().map(|g| g.name), Some("written after the refused rollback".to_string()));
+        expect(label, scen, "a later session sees the snapshot taken after the refused rollback", "SQLite", s.list_group_snapshots(&gid(2)).unwrap().len(), 1);
+        let _ = std::fs::remove_dir_all(&dir);
     }
     // C20 / C09 / C06: a rollback that the back end REFUSES (its target snapshot is gone: released or TTL-pruned by another process on
     // the same file) leaves the manager's accounting as it was: nothing stored is dropped by it, and the snapshots taken before it still
